@@ -4,14 +4,73 @@
 # verus: list of unit names (units/<name>.vrs); every extracted function in the unit is an obligation of the
 #        property unless the function carries its own `//@props` that excludes it.
 # kani:  list of harness-name filters (substring of the qualified harness name); tag convention `cNN_`.
+V = 'Verus contracts on functions extracted from /repo each run'
+K = 'Kani loop-free full-domain harnesses on the compiled crate'
+
 PROPS = {
     'C03': dict(
         title='Expressions evaluate by the Rockstar value rules for every operand kind',
-        verus=['val_ops'],
-        kani=['c03_'],
-        technique='Verus contracts on extracted val.rs/produce_val.rs/exec_stmt.rs functions against reference '
-                  'coercion tables (all six kinds, floats uninterpreted) + Kani loop-free harnesses over all '
-                  'f64/bool payloads on the compiled code (scalar kinds, IEEE bit-precise)',
+        verus=['val_ops', 'fold'], kani=['c03_'],
+        technique=V + ' (val.rs coercion/comparison/arithmetic/rendering against reference tables for all six kinds; '
+                      'produce_val.rs operator step incl. short-circuit call counts; floats uninterpreted) + ' + K +
+                  ' (all f64/bool payloads of the four scalar kinds, IEEE bit-precise, through Val::* and binary_operator_fold)',
+    ),
+    'C04': dict(
+        title='Control flow follows the program text',
+        verus=['exec_flow', 'exec_glue'], kani=[],
+        technique=V + ': block/if/while/until/break/continue/return of exec_stmt.rs against trace languages over a ghost '
+                      'event trace with abstract callees (unbounded: all blocks, all iteration counts, failing callees)',
+    ),
+    'C05': dict(
+        title='Functions, scopes and pronouns',
+        verus=['env', 'exec_flow', 'exec_glue'], kani=[],
+        technique=V + ': environment.rs scope stack / innermost-first lookup / pronoun referent against a Seq<Map> view '
+                      '(SymTable abstract), scope push/pop per loop iteration and branch in exec_stmt.rs',
+    ),
+    'C06': dict(
+        title='Arrays are independent values with queue and dictionary behaviour',
+        verus=['val_arrays', 'val_ops'], kani=['c06_'],
+        technique=V + ': val.rs array/queue/dictionary functions against the mathematical content (Seq / Map view), '
+                      'auto-extension, key kinds, &mut frame conditions (Rc::make_mut contract)',
+    ),
+    'C07': dict(
+        title='Split, join, cast and rounding',
+        verus=['val_mut'], kani=['c07_'],
+        technique=V + ' (cut/cast/turn kind and error tables, std preconditions such as from_str_radix radix range as '
+                      'proof obligations; string contents uninterpreted) + ' + K + ' (rounding and integrality on all f64)',
+    ),
+    'C08': dict(
+        title='Input and output happen once each, in program order',
+        verus=['exec_io', 'exec_glue'], kani=[],
+        technique=V + ': Environment::output/input against a ghost stream model (assumed writeln!/read_line contracts), '
+                      'visit_output/visit_input event traces (exactly one I/O event, errors returned)',
+    ),
+    'C14': dict(
+        title='Equality, ordering and logic obey their algebraic laws',
+        verus=['val_ops', 'fold'], kani=['c14_'],
+        technique=K + ' proving the laws directly on compiled equals/compare/fold for all scalar payloads + ' + V +
+                  ' (tables from which the laws follow for all six kinds)',
+    ),
+    'C16': dict(
+        title='Visitors see every node exactly once, in order',
+        verus=[], kani=['c16_'],
+        technique='Kani recording-visitor harnesses: per traversal method, callbacks checked by kind + node address + '
+                  'order, symbolic presence of optional children and symbolic failing callback (children abstract); '
+                  'list-shaped children bounded (len <= 2, labelled)',
+    ),
+    'C17': dict(
+        title='The constant folder only reports values the interpreter would compute',
+        verus=['folder', 'fold', 'val_ops'], kani=['c17_'],
+        technique=V + ' (tools.rs folder methods for arbitrary subtrees: left fold, accumulator on the left, first error wins, '
+                      'only + - * / and unary minus fold, never identifiers/pronouns/subscripts/pops) + ' + K +
+                  ' (NumericConstant operators = IEEE operation bit for bit, same as Val::plus/... )',
+    ),
+    'C19': dict(
+        title='Lint reports are complete, ordered by line, and linting never fails',
+        verus=['linter'], kani=['c19_'],
+        technique=V + ' (ListBuilder build/combine/default incl. unreachable_unchecked sites, postprocess stable sort, '
+                      'Linter::run, repeated-identifier rule match_or_update / visit_function_call) + Kani recording '
+                      'visitors for the ExprVisitorRunner traversal the pass runs on',
     ),
 }
 
@@ -23,4 +82,7 @@ NOT_APPLICABLE = {
            'reach of both verifiers (closures capturing &mut self; Kani does not terminate on 3 input bytes)',
     'C20': 'process-level behaviour (argv, files, stdout/stderr, exit status, clap): neither verifier models a process '
            'boundary; cli/ is glue over print!/eprintln!',
+    # not yet built (will move to PROPS when their units exist)
+    'C01': 'not yet built', 'C02': 'not yet built', 'C09': 'not yet built', 'C11': 'not yet built',
+    'C12': 'not yet built', 'C13': 'not yet built', 'C18': 'not yet built',
 }
